@@ -25,3 +25,29 @@ def pack2(a):
 
 def first_byte(b):
     return b[0]
+
+
+def twice(n):
+    acc = 0
+    i = 0
+    while i < n:
+        acc = acc + 2
+        i += 1
+    return acc
+
+
+class Frozen(object):
+    """attribute stores are refused - by a guard that only knows the slots of the most derived class"""
+    __slots__ = ['a']
+
+    def __setattr__(self, name, value):
+        raise AttributeError('frozen')
+
+
+class FrozenLeaky(Frozen):
+    __slots__ = ['b']
+
+    def __setattr__(self, name, value):
+        if name in self.__slots__:
+            raise AttributeError('frozen')
+        object.__setattr__(self, name, value)        # 'a' (inherited slot) gets through
